@@ -18,9 +18,10 @@ PROPS = {
         "assumptions": COMMON_ASSUME + ["type tags are 8-byte non-zero discriminators", "typed reads/writes use align-1 Pod types"],
     },
     "C03": {
-        "harness_feature": "f_tlv",
+        "harness_feature": "f_tlv,f_varlen",
         "lean_module": "SplProofs.C03",
-        "streams": ["C03"],
+        # second stream: C15's account histories (the account-level rewrite must leave the canonical layout too)
+        "streams": ["C03", "C15"],
         "rule": "stream tlvhist: histories from a zeroed buffer (sizes 0..300, weighted to exact fit and +-1..12 around it) over an adversarial 8-tag palette and value sizes 0/1/3/5(non-zero default)/8/32 and variable lengths: alloc +-repetition, init_value, realloc to 0 / same / exact fit / fit+1 / > u32::MAX, byte and typed writes through the mutable views, var-len pack (streaming packer), alloc_and_pack, lookups (incl. the get_first_* / *_first_* wrappers for repetition 0), get_discriminators, reopen through the three views; the generator steers towards failing operations at every state; plus special cases outside the line protocol's buffers: entries whose length needs the 3rd/4th length byte (up to 16 MiB) and a 4 GiB zeroed buffer for the length-not-representable failure; after every op the raw buffer, returned slice range (pointer arithmetic) and repetition number are compared with the model and with a shadow Vec<(tag, Vec<u8>)> + independent canonical encoder;  raw bytes compared byte-for-byte with an independent encoder of the logical entry list after every step; non-trivial as C01",
         "assumptions": COMMON_ASSUME + ["type tags are 8-byte non-zero discriminators"],
     },
